@@ -33,8 +33,9 @@ ASSUMPTIONS = [
     "P_2 on QUAD9/HEXA27, P_2 on QUAD8/HEXA20 only when every element is a parallelogram/parallelepiped, P_1 otherwise",
     "high-order nodes of gmsh straight-sided elements lie at the image of their reference position under the vertex map "
     "(checked as a precondition with Get_Local_Coords; otherwise inconclusive)",
-    "located = the second dof column (nodal field 1) evaluates to 1; tolerance 1e-8 x field scale on simplices, 1e-6 where "
-    "the inverse map is iterative (scipy least_squares default stopping rule); identity level 1e-11 for measures and normals",
+    "located = the second dof column (nodal field 1) evaluates to 1; values at 1e-10 x field scale on pure TRI3/TETRA4 meshes (closed-form "
+    "inverse map); elsewhere the inverse map may be scipy.least_squares with its default absolute gtol=1e-8: tolerance = "
+    "200 x |grad p| x 1e-8 sqrt(3)/(l_min/2), at least 1e-9 x field scale; identity level 1e-11 for measures and normals",
     "batches in which an element holds exactly dim query points are not generated (finding C08-d raises there)",
 ]
 LEVEL_TEXT = ("generated meshes of every element type x generated rigid motions/reflections: exact measure, centroid, "
@@ -213,11 +214,10 @@ def _normals_oracles(rec, groups, dim, meas, bmeas, regions, Q, t, x_in, scale, 
 
 
 @st.composite
-def normals2d_cases(draw):
+def normals2d_cases(draw, out):
     r = draw(gm.recipes2d(perm_ok=False))
     if draw(st.booleans()):
         r["verts"] = r["verts"][::-1]  # clockwise contour
-    out = draw(st.sampled_from([False, False, True]))
     ops = draw(cg.motions(2, out_of_plane=out))
     return dict(recipe=r, ops=ops)
 
@@ -309,6 +309,20 @@ def check_normals_3d(case, rec):
 # (c) point location and evaluation of nodal fields
 
 
+def _poly_grad(coefs, P):
+    """gradient (n,3) of the polynomial {"a,b,c": v} at points P (n,3)"""
+    G = np.zeros((P.shape[0], 3))
+    for k, v in coefs.items():
+        e = [int(q) for q in k.split(",")]
+        for d in range(3):
+            if e[d] == 0:
+                continue
+            f = np.array(e, float)
+            f[d] -= 1
+            G[:, d] += v * e[d] * np.prod(P ** f[None, :], axis=1)
+    return G
+
+
 def _allowed_degree(mesh, X):
     """largest total degree d such that P_d (in x,y,z) lies in the isoparametric space of every main group,
     and whether any element is non-affine; None when a precondition fails"""
@@ -333,16 +347,35 @@ def _allowed_degree(mesh, X):
     return deg, general
 
 
-def _warp(mesh, seed, amp):
-    """moves the nodes that are not on the boundary by a random vector (HEXA8: faces become non-planar)"""
+def _warp(mesh, seed):
+    """moves every node by a random vector of at most 10 % of the shortest element edge (HEXA8: faces
+    become non-planar, the domain changes slightly; point location does not need the exact domain)"""
     X = np.array(mesh.coord, float)
-    bnd = set(gm.boundary_nodes(mesh).tolist())
-    inner = np.array([n for n in gm.used_nodes(mesh).tolist() if n not in bnd], dtype=int)
-    if inner.size == 0:
-        return mesh, False
+    lmin = np.inf
+    for g in gm.main_groups(mesh):
+        shape = cg.shape_of(g.elemType)
+        V = X[np.asarray(g.connect, int)[:, : cg.NVERT[shape]]]
+        d = np.linalg.norm(V[:, :, None, :] - V[:, None, :, :], axis=3)
+        lmin = min(lmin, float(d[d > 0].min()))
+    used = gm.used_nodes(mesh)
     rng = np.random.default_rng(int(seed))
-    X[inner] += amp * rng.uniform(-1, 1, (inner.size, 3))
-    return gm.rebuild(mesh, X), True
+    X[used] += 0.1 * lmin * rng.uniform(-1, 1, (used.size, 3))
+    return gm.rebuild(mesh, X)
+
+
+def _hexa_valid(mesh) -> bool:
+    """trilinear Jacobian positive (one sign) at the 8 vertices of every HEXA element"""
+    X = np.asarray(mesh.coord, float)
+    for g in gm.main_groups(mesh):
+        if cg.shape_of(g.elemType) != "HEXA":
+            continue
+        V = X[np.asarray(g.connect, int)[:, :8]]
+        nb = {0: (1, 3, 4), 1: (2, 0, 5), 2: (3, 1, 6), 3: (0, 2, 7), 4: (7, 5, 0), 5: (4, 6, 1), 6: (5, 7, 2), 7: (6, 4, 3)}
+        dets = np.stack([np.linalg.det(np.stack([V[:, a] - V[:, i], V[:, b] - V[:, i], V[:, c] - V[:, i]], 1))
+                         for i, (a, b, c) in nb.items()], 1)
+        if not ((dets > 0).all() or (dets < 0).all()):
+            return False
+    return True
 
 
 @st.composite
@@ -358,7 +391,7 @@ def location_cases(draw, dim):
         r["organised"] = True
         para = True
     warp = None
-    if r["elemType"] == "HEXA8" and draw(st.integers(0, 3)) == 0:
+    if r["elemType"] == "HEXA8" and draw(st.booleans()):
         warp = draw(st.integers(0, 99))
     ops = draw(st.one_of(st.just([]), cg.motions(dim, out_of_plane=draw(st.booleans()) if dim == 2 else False)))
     deg = draw(st.integers(1, gm.ORDER[r["elemType"]]))
@@ -404,9 +437,11 @@ def check_point_location(case, rec):
     et = r["elemType"]
     dim = gm.dim_of(et)
     mesh = gm.build(r)
-    warped = False
-    if case.get("warp") is not None:
-        mesh, warped = _warp(mesh, case["warp"], 0.12 * r["h"])
+    warped = case.get("warp") is not None
+    if warped:
+        mesh = _warp(mesh, case["warp"])
+        if not _hexa_valid(mesh):
+            raise Inconclusive("warped hexahedra are not valid")
     ops = case["ops"]
     cg.apply_motion(mesh, ops)
     Q, t = cg.motion_map(ops)
@@ -452,8 +487,29 @@ def check_point_location(case, rec):
     if warped:
         rec.label("loc:warped")
 
+    # tolerance.  First-order simplices always take the closed-form inverse map: identity level.  Any other
+    # element may go through scipy.least_squares with its default stopping rule |J^T r|_inf <= gtol = 1e-8
+    # (absolute), i.e. a position error |r| <= 1e-8 sqrt(3) / sigma_min(J) with sigma_min(J) ~ l_min / 2, hence a
+    # value error <= |grad p| |r|; the tolerance is 200 x that bound (skewed elements), never below 1e-9 x scale.
+    lmin = np.inf
+    for g in groups:
+        shape = cg.shape_of(g.elemType)
+        Vg = X[np.asarray(g.connect, int)[:, : cg.NVERT[shape]]]
+        dd = np.linalg.norm(Vg[:, :, None, :] - Vg[:, None, :, :], axis=3)
+        lmin = min(lmin, float(dd[dd > 0].min()))
+    gradmax = float(np.linalg.norm(_poly_grad(coefs, X), axis=1).max())
+    iter_scale = max(1e-3 * fscale, 200 * 1e-8 * np.sqrt(3.0) / (lmin / 2) * gradmax / 1e-6)
+
+    closed_form = types in ("TRI3", "TETRA4")  # every element of the mesh takes the closed-form inverse map
+
     def tol_of(mt):
-        return 1e-8 if mt["shape"] in ("TRI", "TETRA") else 1e-6
+        return 1e-10 if closed_form else 1e-6
+
+    def scale_of(mt):
+        return fscale if closed_form else iter_scale
+
+    def name_of(mt):
+        return "value" if closed_form else "value_iterative"
 
     # singly
     single = np.zeros((len(pts), 2))
@@ -471,8 +527,8 @@ def check_point_location(case, rec):
         located[i] = ok
         if not ok:
             continue
-        rec.close(v[0, 1] - 1.0, 1.0, tol_of(mt), "unity", f"{types}: nodal field 1 evaluates to {v[0, 1]!r} at {x.tolist()}", **sig)
-        rec.close(v[0, 0] - exact[i], fscale, tol_of(mt), "value",
+        rec.close(v[0, 1] - 1.0, 1.0, 1e-9, "unity", f"{types}: nodal field 1 evaluates to {v[0, 1]!r} at {x.tolist()}", **sig)
+        rec.close(v[0, 0] - exact[i], scale_of(mt), tol_of(mt), name_of(mt),
                   f"{types}: degree-{deg} polynomial {coefs} at {x.tolist()} ({mt['kind']}, {mt['geometry']} {mt['group']}): "
                   f"{v[0, 0]!r} vs {exact[i]!r}", fam="value", **sig)
 
@@ -492,10 +548,10 @@ def check_point_location(case, rec):
                               f"{types}: query point {pts[i].tolist()} is not located in a batch of {len(keep)}", **sig)
             if not okb:
                 continue
-            rec.close(vb[j, 0] - exact[i], fscale, tol_of(mt), "value",
+            rec.close(vb[j, 0] - exact[i], scale_of(mt), tol_of(mt), name_of(mt),
                       f"{types}: batch of {len(keep)}: {vb[j, 0]!r} vs {exact[i]!r} at {pts[i].tolist()}", fam="value", **sig)
             if located[i]:
-                rec.close(vb[j] - single[i], fscale, tol_of(mt), "batch_equals_single",
+                rec.close(vb[j] - single[i], scale_of(mt), tol_of(mt), "batch_equals_single",
                           f"{types}: batch {vb[j]} vs single {single[i]} at {pts[i].tolist()}", fam="value", **sig)
     kinds = {mt["kind"] for mt in meta}
     rec.nontrivial(deg >= 1 and any(abs(v) > 0 for k, v in coefs.items() if k != "0,0,0") and bool(kinds - {"node"}))
@@ -576,10 +632,11 @@ def check_projector(case, rec):
 
 
 SUBS = [
-    Sub("measure_motion", check_measure_motion, gen=measure_cases, quick=120, thorough=1500, shards=6),
-    Sub("normals_2d", check_normals_2d, gen=normals2d_cases, quick=80, thorough=1000, shards=4),
-    Sub("normals_3d", check_normals_3d, gen=normals3d_cases, quick=50, thorough=600, shards=6),
-    Sub("point_location_2d", check_point_location, gen=lambda: location_cases(2), quick=70, thorough=1000, shards=8),
-    Sub("point_location_3d", check_point_location, gen=lambda: location_cases(3), quick=40, thorough=600, shards=8),
-    Sub("projector", check_projector, gen=projector_cases, quick=50, thorough=600, shards=4),
+    Sub("measure_motion", check_measure_motion, gen=measure_cases, quick=250, thorough=1500, shards=6),
+    Sub("normals_2d", check_normals_2d, gen=lambda: normals2d_cases(False), quick=200, thorough=1500, shards=4),
+    Sub("normals_embedded", check_normals_2d, gen=lambda: normals2d_cases(True), quick=100, thorough=800, shards=4),
+    Sub("normals_3d", check_normals_3d, gen=normals3d_cases, quick=150, thorough=600, shards=6),
+    Sub("point_location_2d", check_point_location, gen=lambda: location_cases(2), quick=250, thorough=1000, shards=8),
+    Sub("point_location_3d", check_point_location, gen=lambda: location_cases(3), quick=150, thorough=600, shards=8),
+    Sub("projector", check_projector, gen=projector_cases, quick=200, thorough=600, shards=4),
 ]
